@@ -79,6 +79,25 @@ Theorem C18_unmirrored :
     Model.reference Seed Y Out draw emit dseed false seeds = List.map (fun s => emit false (draw s)) seeds.
 Proof. exact: Proofs.reference_unmirrored. Qed.
 
+(* nifty.re Samples.at: without old_pos the residuals are kept as they are; with old_pos equal to the
+   current expansion point they are recovered (the absolute samples minus old_pos), so in both cases
+   the re-centred samples are new + residual_i; offset-free absolute samples store sample - mean. *)
+Theorem C18_samples_at_keeps_residuals :
+  forall (s : Model.jsmp) (p new : NV.C20.Model.vec), Model.jpos s = Some p ->
+    Model.jat s new None = Some {| Model.jpos := Some new; Model.jres := Model.jres s |} /\
+    ((forall r, List.In r (Model.jres s) -> length p = length r) ->
+     exists t, Model.jat s new (Some p) = Some t /\ Model.jpos t = Some new /\
+               List.Forall2 (List.Forall2 QArith_base.Qeq) (Model.jres t) (Model.jres s)).
+Proof.
+move=> s p new H; split; [exact: Proofs.jat_none H | move=> Hl; exact: Proofs.jat_old_is_pos H Hl].
+Qed.
+
+Theorem C18_samples_at_absolute :
+  forall (abs : list NV.C20.Model.vec) (mean : NV.C20.Model.vec),
+    Model.jat {| Model.jpos := None; Model.jres := abs |} mean (Some mean)
+    = Some {| Model.jpos := Some mean; Model.jres := List.map (fun x => NV.C20.Model.vsub x mean) abs |}.
+Proof. exact: Proofs.jat_absolute. Qed.
+
 (* Non-vacuity: 3 pairs (6 samples) on 4 tasks: ranges 2,2,1,1; task 3 holds only the odd index 5
    and has to re-draw its partner's sample from the duplicated seed *)
 Example C18_odd_start :
